@@ -127,11 +127,15 @@ def r_overwrite(sh, rep):
                 return e["f"]["p"], sh.nsrc(B, e["args"][0])
             return None, sh.nsrc(B, e)
         (fl_, al), (fr_, ar) = keyfn(l), keyfn(r)
-        sides = {al.lstrip("&"), ar.lstrip("&")}
-        okc = fl_ == fr_ and any(s.endswith(".title") and s.startswith("applied_validator") for s in sides) and any(s == "%s.title" % var for s in sides)
+        sides = [al.lstrip("&"), ar.lstrip("&")]
+        loop_side = [x for x in sides if x == "%s.title" % var]
+        other_side = [x for x in sides if x.endswith(".title") and x != "%s.title" % var]
+        okc = fl_ == fr_ and len(loop_side) == 1 and len(other_side) == 1
+        applied = other_side[0][: -len(".title")] if other_side else "applied_validator"
     rep.check(okc, "R18-OVERWRITE", "apply_parameter#overwrite-condition-is-key-equality", sh.loc(B, ifs[0]["e"]), "the overwrite loop must select validators by equality of the same key applied to both titles (`key(applied.title) == key(validator.title)`); found `%s` — a weaker relation (prefix, contains) also overwrites sibling validators whose names extend the target's" % sh.nsrc(B, cond)[:90], sample={"condition": sh.nsrc(B, cond)[:90]})
     assigns = {sh.nsrc(B, n["l"]): sh.nsrc(B, n["r"]) for n in walk(ifs[0]["e"]["then"]) if n["k"] == "Assign"}
-    want = {"%s.program" % var: "applied_validator.program", "%s.parameters" % var: "applied_validator.parameters"}
+    applied = locals().get("applied", "applied_validator")
+    want = {"%s.program" % var: "%s.program" % applied, "%s.parameters" % var: "%s.parameters" % applied}
     okb = set(assigns) == set(want) and all(assigns[k].startswith(v) for k, v in want.items())
     rep.check(okb, "R18-OVERWRITE", "apply_parameter#program-and-parameters-together", sh.loc(B, ifs[0]["e"]), "under that condition both the program and the remaining parameters must be taken from the applied validator (found %s)" % assigns, sample={"assignments": assigns})
     # the applied validator comes from apply() on the validator that lookup selected
@@ -149,8 +153,10 @@ def r_arity(sh, rep, rid):
             if n["k"] == "If" and any(x["k"] == "MethodCall" and x["m"] == "len" for x in walk(n["cond"])) and "TupleItemsMismatch" in sh.nsrc(PRM, n["then"]):
                 found += 1
                 c = n["cond"]
-                ok = c["k"] == "Binary" and c["op"] == "!=" and {sh.nsrc(PRM, c["l"]), sh.nsrc(PRM, c["r"])} == {"terms.len()", "items.len()"} and any(x["k"] == "Return" for x in walk(n["then"]))
-                rep.check(ok, rid, "%s#tuple-arity-is-equality" % name, sh.loc(PRM, n), "%s must reject a tuple whose number of items differs from the schema's (`terms.len() != items.len()` -> Err) before zipping; found `%s`: zip truncates, so surplus or missing items are silently accepted and baked into the applied script" % (name, sh.nsrc(PRM, c)), sample={"cond": sh.nsrc(PRM, c)})
+                # an inequality between the lengths of two different collections (names are free), rejecting with Err before the zip
+                sides = [sh.nsrc(PRM, x["recv"]) for x in (c.get("l"), c.get("r")) if isinstance(x, dict) and x.get("k") == "MethodCall" and x.get("m") == "len"] if c["k"] == "Binary" else []
+                ok = c["k"] == "Binary" and c["op"] == "!=" and len(sides) == 2 and sides[0] != sides[1] and any(x["k"] == "Return" for x in walk(n["then"]))
+                rep.check(ok, rid, "%s#tuple-arity-is-equality" % name, sh.loc(PRM, n), "%s must reject a tuple whose number of items differs from the schema's (`a.len() != b.len()` -> Err) before zipping; found `%s`: zip truncates, so surplus or missing items are silently accepted and baked into the applied script" % (name, sh.nsrc(PRM, c)), sample={"cond": sh.nsrc(PRM, c)})
         if found != 1:
             rep.bad(rid, "%s#tuple-arity-check-present" % name, sh.loc(PRM, f), "%s has %d TupleItemsMismatch checks, expected 1" % (name, found))
 
